@@ -190,11 +190,42 @@ def run(ctx):
                 seen.add(key)
                 trees.append(r["tree"])
         check_trees(ctx, trees, "%s%d" % (prof, m))
+    # numerals whose spelling is not canonical: the AST keeps the text ("+5", "007", "+1.5e+3"), the TLC generator's
+    # integer literals are numbers and cannot carry it; these few trees are written down here, in three contexts
+    n = lambda kind, v: ["Lit", kind, v]
+    x = ["Id", [], "x"]
+    odd = [n("Integer", "+5"), n("Integer", "007"), n("Integer", "-0"), n("Integer", "+0012"), n("Float", "+1.5"), n("Float", "+1e+5"),
+           n("Float", "-0.50"), n("Float", "1E-03"), n("Float", "00.5")]
+    extra = []
+    for lit in odd:
+        extra += [["Cmp", "eq", x, lit], ["Cmp", "in", x, ["List", [lit, n("Integer", 1)]]], ["Cmp", "gt", ["Bin", "add", x, lit], lit],
+                  ["Call", ["Id", ["f"], "g"], [lit]]]
+    check_trees_direct(ctx, extra, "spelled-numerals")
     ctx.exhaustive = ctx.tier == "quick"
+
+
+def check_trees_direct(ctx, trees, label):
+    """parse(render(t)) = t and the fixpoint, on the real code only (no spec reading of the text)"""
+    for tree in trees:
+        node = project.build(tree)
+        ctx.evaluations += 1
+        try:
+            s = render(node)
+        except Exception as e:  # noqa
+            ctx.violation({"kind": "render-raises", "exc": type(e).__name__, "features": [label]}, {"tree": tree, "msg": str(e)[:200], "gen": label})
+            continue
+        got = project.outcome(s)
+        ctx.traces += 1
+        if got != ["ok", tree]:
+            ctx.violation({"kind": "reparse-mismatch", "features": [label]}, {"tree": tree, "text": s, "got": got, "gen": label})
+        elif render(project.parse(s)) != s:
+            ctx.violation({"kind": "not-fixpoint", "features": [label]}, {"tree": tree, "text": s, "gen": label})
 
 
 def replay(ctx, rep):
     d = rep["detail"]
+    if d.get("gen") == "spelled-numerals":
+        return check_trees_direct(ctx, [d["tree"]], "spelled-numerals")
     if "order" in d:      # depends on what the reused visitor rendered before: re-run the generation
         print("reused-visitor case (%s order); text: %s" % (d["order"], d.get("text")))
         return run(ctx)
